@@ -1122,7 +1122,7 @@ def concretise(p, rng):
 
 def build_cases(ctx, rng):
     pool, gen_info = tlc_programs(ctx)
-    quota = {1: 1, 2: 3, 3: 5, 4: 3, 5: 2} if ctx.quick else {1: 5, 2: 24, 3: 40, 4: 18, 5: 10}
+    quota = {1: 1, 2: 3, 3: 5, 4: 3, 5: 2} if ctx.quick else {1: 4, 2: 18, 3: 30, 4: 14, 5: 8}
     progs = select_programs(pool, quota, rng)
     for P in quota:
         if not any(max_pops(p) == P for p in progs):
@@ -1148,7 +1148,7 @@ def build_cases(ctx, rng):
             cases.append(dict(case, id=case['id'] + 'a', kind='ancient', Nref=rng.choice([40.0, 64.0, 100.0]), anc=rng.randint(1, Pf), phi=rng.choice([0.5, 0.25, round(rng.uniform(0.1, 0.9), 3)])))
     # graphs
     plans = [set(), {'tri'}, {'merge'}, {'admix'}, {'admix_end'}, {'branch'}, {'extinct'}, {'latepulse'}, {'merge', 'branch'}, {'pulsesplit'}, {'branch', 'pulsesplit'}]
-    ngraphs = 11 if ctx.quick else 90
+    ngraphs = 11 if ctx.quick else 66
     made = tries = 0
     while made < ngraphs and tries < 40 * ngraphs:
         tries += 1
